@@ -137,6 +137,17 @@ func ResolveSpec(p *load.Program, rel string) (*report.RuleResult, bool) {
 	for _, s := range append(append([]string{}, rsClassSpecial...), rsConstSpecial...) {
 		single = append(single, s, strings.ToUpper(s), strings.ToUpper(s[:1])+s[1:])
 	}
+	nss := []string{"", "App\\Sub"}
+	if os.Getenv("VERIF_TIER") == "thorough" {
+		// every special name with each single letter in upper case, with one letter dropped and with one added;
+		// a third, one-segment namespace
+		for _, s := range append(append([]string{}, rsClassSpecial...), rsConstSpecial...) {
+			for i := range s {
+				single = append(single, s[:i]+strings.ToUpper(s[i:i+1])+s[i+1:], s[:i]+s[i+1:], s[:i]+"x"+s[i:])
+			}
+		}
+		nss = append(nss, "N")
+	}
 	for _, s := range single {
 		names = append(names, rsName{"Name", []string{s}})
 	}
@@ -161,7 +172,7 @@ func ResolveSpec(p *load.Program, rel string) (*report.RuleResult, bool) {
 	problems := map[string][]string{}
 	count := map[string]int{}
 	typeKey := map[string]string{"": "class-like", "function": "function", "const": "const"}
-	for _, ns := range []string{"", "App\\Sub"} {
+	for _, ns := range nss {
 		out, st, why := in.Call(newNS, nil, []interface{}{ns})
 		if st != ceval.OK || len(out) != 1 {
 			undecided = "NewNamespace: " + why
@@ -242,7 +253,7 @@ func ResolveSpec(p *load.Program, rel string) (*report.RuleResult, bool) {
 		res.Count("scenarios", count[tk])
 		res.Count("alias-kinds", 1)
 		res.Check(len(problems[tk]) == 0, "kind:"+tk, pos, "Namespace.ResolveName",
-			fmt.Sprintf("on all %d scenarios (2 namespaces, imports of the three kinds, special names and near-misses in several spellings, qualified, relative and fully qualified names) the name resolves as PHP's rules say", count[tk]),
+			fmt.Sprintf("on all %d scenarios (2 namespaces - 3 and every one-letter variant of the special names in the thorough tier -, imports of the three kinds, special names and near-misses in several spellings, qualified, relative and fully qualified names) the name resolves as PHP's rules say", count[tk]),
 			strings.Join(problems[tk], "; "))
 	}
 	return res, true
